@@ -692,7 +692,7 @@ def heat_float(d, w):
         return 0.0
 
 
-def gen_underflow(rng, hist, routine):
+def gen_underflow(rng, hist, routine, big=False):
     """kernel narrow against the k-neighbourhood: the heat weights of the FARTHEST listed neighbours underflow to
     exactly 0.0 (or to a denormal) while the nearer ones keep non-zero weights that still connect all samples
     (model-guided: own k-NN, minimum-spanning-tree bottleneck b, width = b^2 / U with U in 5 .. 300, so the weakest
@@ -700,7 +700,8 @@ def gen_underflow(rng, hist, routine):
     are handed over nearest first / farthest first / shuffled / in nth_element-like order.  Public API: the three
     neighbour searches (they list the same neighbours in different orders)."""
     for _ in range(300):
-        n = rng.choice([5, 6, 8, 10] if routine else [8, 10, 12, 14, 16, 20, 24])
+        # (the exact rank decision costs ~n^4 big-integer operations on weights spanning 1000 binades: n <= 16 quick)
+        n = rng.choice([5, 6, 8, 10] if routine else [8, 10, 12, 14, 16] + ([20, 24] if big else []))
         shape = rng.choice(["line", "line", "grid", "arc"])
         jit = rng.choice([0.002, 0.01, 0.05, 0.15])
         pts = lattice_points(rng, n, shape, jit)
@@ -2193,7 +2194,7 @@ def make_cases(rng, hist, tier, search=False, want=("rt", "api")):
         cases += [gen_dm_weak(rng, hist, routine=True) for _ in range(3 if quick else 24)]
     if "api" in want:
         cases += boundary_cases(rng, hist)
-        cases += [gen_underflow(rng, hist, False) for _ in range(n_ufl_api)]
+        cases += [gen_underflow(rng, hist, False, big=not quick) for _ in range(n_ufl_api)]
         cases += [gen_le_weak(rng, hist) for _ in range(n_lew)]
         cases += [gen_dm_weak(rng, hist) for _ in range(n_dmw)]
         cases += [gen_api_defaults(rng, hist) for _ in range(n_dfl)]
